@@ -233,10 +233,17 @@ JudgeAgainst(E, got, path, distinct) ==
   ELSE IF OrderOK(E, got, HasDesc(path)) THEN "ok" ELSE "order"
 Better(a, b) == IF a = "ok" \/ b = "ok" THEN "ok" ELSE IF a = "order" \/ b = "order" THEN "order" ELSE a
 JudgeGet(path, root, got, distinct) ==
-  LET E == Locs(path, root)
-      j1 == JudgeAgainst(E, got, path, distinct)
-      j2 == IF j1 # "ok" /\ UnionDup(path) THEN Better(j1, JudgeAgainst(Dedup(E), got, path, distinct)) ELSE j1
-  IN IF j2 # "ok" /\ EndsDesc(path) THEN Better(j2, JudgeAgainst(DropStarts(path, root), got, path, distinct)) ELSE j2
+  LET E == Locs(path, root) IN
+  IF EndsDesc(path) THEN
+    \* trailing bare descent: every nested node is required, each start node may or may not be reported
+    \* (allowance), no order obligation (the last fragment is the descent itself)
+    LET req == Vals(DropStarts(path, root))
+        all == Vals(E) IN
+    IF SubBagSeq(req, got) /\ SubBagSeq(got, all) THEN "ok"
+    ELSE IF SubBagSeq(req, got) THEN "extra" ELSE IF SubBagSeq(got, all) THEN "fewer" ELSE "sel"
+  ELSE
+    LET j1 == JudgeAgainst(E, got, path, distinct) IN
+    IF j1 # "ok" /\ UnionDup(path) THEN Better(j1, JudgeAgainst(Dedup(E), got, path, distinct)) ELSE j1
 
 \* the order of Get's result is completely fixed by the statement
 OrderDefined(E, path) == ~HasDesc(path) /\ \A i \in 1..Len(E) : \A p \in 1..Len(E[i].ok) : E[i].ok[p].o
@@ -255,7 +262,7 @@ SCls(f) == IF f.sta THEN "abs" ELSE IF f.st = 0 THEN "0" ELSE IF f.st = 1 THEN "
 NodeCls(n) == IF IsArr(n) THEN "arr" ELSE IF IsObj(n) THEN "obj" ELSE IF "z" \in DOMAIN n THEN "null" ELSE "scalar"
 Locus(path, root, fx) ==
   LET p == Focus(path, fx) IN
-  IF p = 0 THEN [frag |-> "none", pos |-> "only", cont |-> "none", bound |-> "-"]
+  IF p = 0 THEN [frag |-> "none", pos |-> "only", cont |-> "none", pre |-> "none", bound |-> <<"-">>]
   ELSE LET f == path[p]
            before == Locs(SubSeq(path, 1, p - 1), root)
            steppers == {i \in 1..Len(path) : path[i].f \notin {"root", "at", "bracket"}}
@@ -267,5 +274,7 @@ Locus(path, root, fx) ==
                       [] f.f = "nth" -> <<BCls(FALSE, f.i, n)>>
                       [] f.f = "filter" -> <<f.op>>
                       [] OTHER -> <<"-">>
-       IN [frag |-> f.f, pos |-> pos, cont |-> cont, bound |-> bound]
+           \* how many nodes the fragments before the focus select (a defect may need several siblings in flight)
+           pre == IF Len(before) = 0 THEN "none" ELSE IF Len(before) = 1 THEN "single" ELSE "multi"
+       IN [frag |-> f.f, pos |-> pos, cont |-> cont, pre |-> pre, bound |-> bound]
 =============================================================================
